@@ -22,6 +22,7 @@ pub mod c41;
 pub mod c42;
 pub mod conv;
 pub mod exchange;
+pub mod exchange2;
 pub mod gt;
 pub mod lp;
 pub mod lpstake;
@@ -71,8 +72,8 @@ pub const REGISTRY: &[(&str, fn(&mut Ctx))] = &[
     ("C19", c19::run),
     ("C20", c20::run),
     ("C21", revertible::run_c21),
-    ("C22", exchange::run_c22),
-    ("C23", exchange::run_c23),
+    ("C22", run_c22_all),
+    ("C23", run_c23_all),
     ("C33", c33::run),
     ("C38", lpstake::run_c38),
     ("C40", sdkdiff::run_c40),
@@ -113,4 +114,15 @@ fn run_c25_all(ctx: &mut crate::engine::Ctx) {
 fn run_c29_all(ctx: &mut crate::engine::Ctx) {
     oracle::run_c29(ctx);
     oracle_ix::run_c29_instr(ctx);
+}
+
+/// C22/C23: base exchange histories + GLV / ADL / closed-state histories and GLV lifecycles.
+fn run_c22_all(ctx: &mut crate::engine::Ctx) {
+    exchange::run_c22(ctx);
+    exchange2::run_c22_glv(ctx);
+}
+fn run_c23_all(ctx: &mut crate::engine::Ctx) {
+    exchange::run_c23(ctx);
+    exchange2::run_c23_glv(ctx);
+    exchange2::run_c23_decrease(ctx);
 }
